@@ -67,8 +67,8 @@ static void enumerate(uint64_t seed, const char *cfg)
         int first = -1, last = -1;
         for (int e = 0; e < g_nevt; e++) if (g_evt[e] > c->t0 && g_evt[e] <= tend) { if (first < 0) first = e; last = e; }
         if (first >= 0) { inst[ni++] = g_evt[first]; if (last > first + 1) inst[ni++] = g_evt[(first + last) / 2]; if (last > first) inst[ni++] = g_evt[last]; }
-        int kinds[8], nk = 0;
-        kinds[nk++] = 1; kinds[nk++] = 2; kinds[nk++] = 6;
+        int kinds[12], nk = 0;
+        kinds[nk++] = 1; kinds[nk++] = 2; kinds[nk++] = 6; kinds[nk++] = 11; kinds[nk++] = 12;
         if (guard_op(c->op)) { kinds[nk++] = 3; kinds[nk++] = 4; }
         if (c->op == OP_WAITE) kinds[nk++] = 5;
         if (c->op == OP_YIELD) kinds[nk++] = 8;
@@ -82,7 +82,7 @@ static void enumerate(uint64_t seed, const char *cfg)
                 placement *q = &PL[npl++];
                 memset(q, 0, sizeof *q);
                 q->victim = c->pid; q->stepk = c->stepk; q->delay = (int64_t)d4; q->prio = vp + sgn; q->kind = kinds[k];
-                q->arg = (kinds[k] == 1) ? vp + sgn : (kinds[k] == 6) ? vp + 1 : 0;
+                q->arg = (kinds[k] == 1) ? vp + sgn : (kinds[k] == 6) ? vp + 1 : (kinds[k] == 11 && sgn > 0) ? 4 : 0;
             }
             /* coincidences: two different causes for the same call in the same instant, in both orders
              * (the first one gets the higher event priority); on the call instant and on the return instant only */
